@@ -644,7 +644,9 @@ class C11(Sim):
         tree, n, k = tr["tree"], self.n, int(ev["k"])
         q = self._mkpt(ev)
         m = min(k, n)
-        ac = "k>n" if k > n else ("k==n" if k == n else ("leaf<k<n" if k > tr["leaf"] else "k<=leaf"))
+        # argument class: k against n and against the population of the smallest leaf of this tree (observable in
+        # tree.nodes): when every leaf holds at least k points the first leaf visited already yields k candidates
+        ac = "k>n" if k > n else ("k==n" if k == n else ("smallest-leaf<k<n" if k > tr["min_leaf"] else "k<=smallest-leaf"))
         info = "n=%d d=%d max_leaf_size=%d strategy=%s k=%d pt=%r (%s)" % (n, self.d, tr["leaf"], tr["strategy"], k, ev["pt"], ev.get("pk"))
         try:
             with _budget.StepBudget(query_budget(n, len(tree.nodes))) as b:
